@@ -21,10 +21,13 @@ Shared2 == World = "shared2"
 \* shared3: s9 = {"x": @t} built with KeysAreOptionalByDefault and s10 = @t built without it hold the same object @t = {"id": 1}: an option of a
 \* root is an input of that root only, the type object does not carry it from one root to the other
 Shared3 == World = "shared3"
-Schemas == IF Shared THEN {"s5", "s6"} ELSE IF Shared2 THEN {"s7", "s8"} ELSE IF Shared3 THEN {"s9", "s10"} ELSE {"s1", "s2", "s3", "s4"}
+\* shared4: s11 and s12 = {"user": @user} hold the same object @user = {"id": @id}; only s11 was given @id - what a type refers to is
+\* looked up in the root being checked, so s12 fails (1302) however often s11 was checked before
+Shared4 == World = "shared4"
+Schemas == IF Shared THEN {"s5", "s6"} ELSE IF Shared2 THEN {"s7", "s8"} ELSE IF Shared3 THEN {"s9", "s10"} ELSE IF Shared4 THEN {"s11", "s12"} ELSE {"s1", "s2", "s3", "s4"}
 \* built anew for every validate. main: accepted / two rejected (complementary missing keys) / malformed; shared: inherited key missing / present
-FreshDocs == IF Shared THEN {"d5", "d6"} ELSE IF Shared2 THEN {"d7", "d8"} ELSE IF Shared3 THEN {"d9", "d10"} ELSE {"d1", "d2", "d3", "d4"}
-Docs == IF Shared \/ Shared2 \/ Shared3 THEN {} ELSE {"x1", "x2", "x3"}      \* persistent Document objects: valid / malformed / valid + trailing garbage
+FreshDocs == IF Shared THEN {"d5", "d6"} ELSE IF Shared2 THEN {"d7", "d8"} ELSE IF Shared3 THEN {"d9", "d10"} ELSE IF Shared4 THEN {"d11", "d12"} ELSE {"d1", "d2", "d3", "d4"}
+Docs == IF Shared \/ Shared2 \/ Shared3 \/ Shared4 THEN {} ELSE {"x1", "x2", "x3"}      \* persistent Document objects: valid / malformed / valid + trailing garbage
 SchemaOps == {"check", "len", "example", "getast", "used"}
 \* World "docs": only the persistent documents (cursor discipline of Check / Len / NextLexeme / Validate), so that longer histories fit
 DocsOnly == World = "docs"
@@ -32,8 +35,8 @@ Ops == (IF DocsOnly THEN {} ELSE {[op |-> o, obj |-> s, arg |-> ""] : o \in Sche
   \cup (IF DocsOnly THEN {} ELSE {[op |-> "validate", obj |-> s, arg |-> d] : s \in Schemas, d \in FreshDocs})
   \cup {[op |-> o, obj |-> x, arg |-> ""] : o \in {"dcheck", "dlen", "dnext", "ddrain"}, x \in Docs}
   \cup {[op |-> "dvalidate", obj |-> "s1", arg |-> x] : x \in Docs}
-  \cup (IF Shared \/ Shared2 \/ Shared3 \/ DocsOnly THEN {} ELSE {[op |-> o, obj |-> "e1", arg |-> ""] : o \in {"echeck", "evalues", "east", "elen"}})
-  \cup (IF Shared \/ Shared2 \/ Shared3 \/ DocsOnly THEN {} ELSE {[op |-> o, obj |-> "r1", arg |-> ""] : o \in {"rpattern", "rexample", "rlen"}})
+  \cup (IF Shared \/ Shared2 \/ Shared3 \/ Shared4 \/ DocsOnly THEN {} ELSE {[op |-> o, obj |-> "e1", arg |-> ""] : o \in {"echeck", "evalues", "east", "elen"}})
+  \cup (IF Shared \/ Shared2 \/ Shared3 \/ Shared4 \/ DocsOnly THEN {} ELSE {[op |-> o, obj |-> "r1", arg |-> ""] : o \in {"rpattern", "rexample", "rlen"}})
 
 \* cursor[x] : number of lexemes already delivered by NextLexeme, or -1 when the position is undefined
 \* once[o]   : which once-caches of object o are filled (I layer bookkeeping)
